@@ -7,6 +7,7 @@ import (
 	"runtime"
 	"sort"
 	"strings"
+	"sync/atomic"
 	"time"
 
 	"github.com/fsnotify/fsnotify"
@@ -234,6 +235,15 @@ func runWatchJob(c *Ctl, job *Job, idx int, res *RunResult, pre *watchPre) {
 	}
 	executor.VerifInterpOptions = []interp.RunnerOption{interp.ExecHandler(pl.Handler)}
 	defer func() { executor.VerifInterpOptions = nil }()
+	// every run of the task parks at Run entry: the next event can be delivered while the run
+	// triggered by the previous one has not even merged its environment yet
+	var runSeq int32
+	runner.VerifYield = func(kind string, subj interface{}) {
+		if kind == "run-enter" {
+			c.Yield("run-enter", fmt.Sprintf("wt#%d", atomic.AddInt32(&runSeq, 1)), nil)
+		}
+	}
+	defer func() { runner.VerifYield = nil }()
 	tr, err := runner.NewTaskRunner()
 	if err != nil {
 		res.HarnessErr = err.Error()
@@ -276,11 +286,11 @@ func runWatchJob(c *Ctl, job *Job, idx int, res *RunResult, pre *watchPre) {
 		start := c.Now()
 		for c.Now()-start < limit {
 			c.Quiesce()
-			parks := c.ParkedOf("exec", "exec-dying")
+			parks := c.ParkedOf("exec", "exec-dying", "run-enter")
 			if len(parks) == 0 {
 				c.Advance(time.Second)
 				c.Quiesce()
-				if len(c.ParkedOf("exec", "exec-dying")) == 0 {
+				if len(c.ParkedOf("exec", "exec-dying", "run-enter")) == 0 {
 					return
 				}
 				continue
@@ -288,6 +298,8 @@ func runWatchJob(c *Ctl, job *Job, idx int, res *RunResult, pre *watchPre) {
 			for _, p := range parks {
 				if p.Kind == "exec-dying" {
 					c.Release(p, Action{Kind: "die"})
+				} else if p.Kind == "run-enter" {
+					c.Release(p, Action{Kind: "go"})
 				} else {
 					info := p.Data.(*ExecInfo)
 					if c.Now()-info.StartAt < dur() {
@@ -306,6 +318,8 @@ func runWatchJob(c *Ctl, job *Job, idx int, res *RunResult, pre *watchPre) {
 		c.Violate("C20", "initial-run", "the watcher must run its task once when it starts: %d command executions", len(execs))
 	}
 	names := append([]string(nil), want...)
+	expected := map[string]int{} // "eventname path" -> number of subscribed events of that kind
+	noise := false
 	for i := range w.History {
 		ev := &w.History[i]
 		if len(names) == 0 {
@@ -357,33 +371,60 @@ func runWatchJob(c *Ctl, job *Job, idx int, res *RunResult, pre *watchPre) {
 		_, known := opNames[ev.Op]
 		if !known {
 			c.Count("c20_combined_or_zero_op")
-			continue // combined / zero op: the statement does not say which type that is
+			noise = true // combined / zero op: the statement does not say which type that is
+			continue
 		}
-		c.Quiesce()
-		newExecs := execs[before:]
 		if sub {
 			c.Count("c20_subscribed_events")
-			found := 0
-			for _, x := range newExecs {
-				if x.Env["EventName"] == name && x.Env["EventPath"] == target {
-					found++
-				}
-			}
-			if found != 1 {
-				var seen []string
-				for _, x := range newExecs {
-					seen = append(seen, fmt.Sprintf("%s{EventName=%s EventPath=%s}", x.Key, x.Env["EventName"], relOne(pre.root, x.Env["EventPath"])))
-				}
-				c.Violate("C20", "subscribed-event-not-served", "event %d: %s on %s is subscribed (%v) but the task ran %d time(s) with that EventName/EventPath (executions since the event: %v)", i, name, relOne(pre.root, target), w.Events, found, seen)
-			}
+			expected[name+" "+target]++
 		} else {
 			c.Count("c20_unsubscribed_events")
-			if len(newExecs) != 0 {
-				c.Violate("C20", "unsubscribed-event-served", "event %d: %s on %s is not among the subscribed events %v but the task ran", i, name, relOne(pre.root, target), w.Events)
+		}
+		_ = before
+	}
+	finishRuns(10 * time.Second)
+	c.Quiesce()
+	// every subscribed event ran the task exactly once with its own EventName / EventPath; nothing else ran it
+	observed := map[string]int{}
+	for k, x := range execs {
+		if k == 0 {
+			continue // the initial run
+		}
+		observed[x.Env["EventName"]+" "+x.Env["EventPath"]]++
+	}
+	{
+		keys := map[string]bool{}
+		for k := range expected {
+			keys[k] = true
+		}
+		for k := range observed {
+			keys[k] = true
+		}
+		var ks []string
+		for k := range keys {
+			ks = append(ks, k)
+		}
+		sort.Strings(ks)
+		for _, k := range ks {
+			known := false
+			for _, n := range opNames {
+				if strings.HasPrefix(k, n+" ") {
+					known = true
+				}
+			}
+			if !known {
+				c.Count("c20_runs_for_unconstrained_ops")
+				continue // a run for a combined / zero op: the statement does not say which type that is
+			}
+			switch {
+			case observed[k] < expected[k]:
+				c.Violate("C20", "subscribed-event-not-served", "%d subscribed event(s) \"%s\" (subscribed: %v) but the task ran %d time(s) with that EventName / EventPath; all runs: %v", expected[k], relOne(pre.root, k), w.Events, observed[k], relKeys(pre.root, observed))
+			case observed[k] > expected[k]:
+				c.Violate("C20", "unexpected-run", "the task ran %d time(s) with EventName / EventPath \"%s\" but only %d subscribed event(s) of that kind were delivered (subscribed: %v)", observed[k], relOne(pre.root, k), expected[k], w.Events)
 			}
 		}
 	}
-	finishRuns(10 * time.Second)
+	_ = noise
 	// shut down
 	wt.VerifSetEvents(orig)
 	go func() {
@@ -494,4 +535,13 @@ func countPollers() int {
 	buf := make([]byte, 1<<20)
 	n := runtime.Stack(buf, true)
 	return strings.Count(string(buf[:n]), "fsnotify.(*fdPoller).wait")
+}
+
+func relKeys(root string, m map[string]int) []string {
+	var out []string
+	for k, n := range m {
+		out = append(out, fmt.Sprintf("%s x%d", strings.Replace(k, root+"/", "", 1), n))
+	}
+	sort.Strings(out)
+	return out
 }
